@@ -368,6 +368,7 @@ func HelperQueryArithmeticAndLogical(queryOp *structs.QueryArithmetic, resMap ma
 		// Since each grpID is unique and contains label set information, we can map lGrpID to labelSet and labelSet to rGrpID.
 		// This way, we can quickly find the corresponding rGrpID for a given lGrpID in the other vector. If there is no corresponding result, it means there are no matching labels between the two vectors.
 		idToMatchingLabelSet := make(map[string]string)
+		rightIDToMatchingLabelSet := make(map[string]string)
 		matchingLabelValTorightGroupID := make(map[string]string)
 		hasVectorMatchingOp := queryOp.VectorMatching != nil && len(queryOp.VectorMatching.MatchingLabels) > 0
 		if hasVectorMatchingOp {
@@ -408,6 +409,7 @@ func HelperQueryArithmeticAndLogical(queryOp *structs.QueryArithmetic, resMap ma
 				matchingLabelsComb[matchingLabelValStr] = struct{}{}
 
 				matchingLabelValTorightGroupID[matchingLabelValStr] = rGroupID
+				rightIDToMatchingLabelSet[rGroupID] = matchingLabelValStr
 			}
 
 		} else if opLabelsDoNotNeedToMatch {
@@ -458,67 +460,80 @@ func HelperQueryArithmeticAndLogical(queryOp *structs.QueryArithmetic, resMap ma
 			}
 		}
 
+		isOr := queryOp.Operation == sutils.LetOr
+		isUnless := queryOp.Operation == sutils.LetUnless
 		for lGroupID, tsLHS := range resultLHS.Results {
 			// lGroupId is like: metricName{key:value,...
 			// So, if we want to determine whether there are elements with the same labels in another metric, we need to appropriately modify the group ID.
 			rGroupID := ""
+			labelSet := ""
 
 			if hasVectorMatchingOp || opLabelsDoNotNeedToMatch {
 				matchingLabelVal, exists := idToMatchingLabelSet[lGroupID]
 				if !exists {
 					continue
 				}
-				rGroupID, exists = matchingLabelValTorightGroupID[matchingLabelVal]
-				if !exists {
-					continue
-				}
-			} else {
-				labelSet := ""
-				if len(lGroupID) >= len(resultLHS.MetricName) {
-					labelSet = canonicalLabelSet(lGroupID[len(resultLHS.MetricName):])
-					rGroupID = rGroupIDOfLabelSet[labelSet]
-				}
+				labelSet = matchingLabelVal
+				rGroupID = matchingLabelValTorightGroupID[matchingLabelVal]
+			} else if len(lGroupID) >= len(resultLHS.MetricName) {
+				labelSet = canonicalLabelSet(lGroupID[len(resultLHS.MetricName):])
+				rGroupID = rGroupIDOfLabelSet[labelSet]
+			}
 
-				if queryOp.Operation == sutils.LetOr || queryOp.Operation == sutils.LetUnless {
-					lGroupIDsOfLabelSet[labelSet] = append(lGroupIDsOfLabelSet[labelSet], lGroupID)
-				}
+			if isOr {
+				lGroupIDsOfLabelSet[labelSet] = append(lGroupIDsOfLabelSet[labelSet], lGroupID)
 			}
 
 			// If 'and' operation cannot find a matching label set in the right vector, we should skip the current label set in the left vector.
 			// However, for the 'or', 'unless' we do not want to skip that.
-			if _, ok := resultRHS.Results[rGroupID]; !ok && queryOp.Operation != sutils.LetOr && queryOp.Operation != sutils.LetUnless {
+			tsRHS, ok := resultRHS.Results[rGroupID]
+			if !ok && !isOr && !isUnless {
 				continue
 			} //Entries for which no matching entry in the right-hand vector are dropped
 			finalResult[lGroupID] = make(map[uint32]float64)
 			for timestamp, valueLHS := range tsLHS {
-				valueRHS := resultRHS.Results[rGroupID][timestamp]
+				// The operators work on the samples of one timestamp: a series without a sample at a timestamp
+				// is not in the vector there, its value must not be read as 0.
+				valueRHS, ok := tsRHS[timestamp]
+				if isUnless {
+					if ok {
+						// For 'unless' op, all matching elements in both vectors are dropped
+						continue
+					}
+				} else if !ok && !isOr {
+					continue
+				}
 				putils.SetFinalResult(queryOp, finalResult, lGroupID, timestamp, valueLHS, valueRHS, swapped)
 			}
+			if isUnless && len(finalResult[lGroupID]) == 0 {
+				delete(finalResult, lGroupID)
+			}
 		}
-		if queryOp.Operation == sutils.LetOr || queryOp.Operation == sutils.LetUnless {
+		if isOr {
 			for rGroupID, tsRHS := range resultRHS.Results {
 				labelSet := ""
-				if len(rGroupID) >= len(resultRHS.MetricName) {
+				if hasVectorMatchingOp || opLabelsDoNotNeedToMatch {
+					labelSet = rightIDToMatchingLabelSet[rGroupID]
+				} else if len(rGroupID) >= len(resultRHS.MetricName) {
 					labelSet = canonicalLabelSet(rGroupID[len(resultRHS.MetricName):])
 				}
 
-				// For 'unless' op, all matching elements in both vectors are dropped
-				if queryOp.Operation == sutils.LetUnless {
+				// For 'or' op, a sample of the right vector is taken where no series of the left vector with the same label set has one.
+				for timestamp, valueRHS := range tsRHS {
+					onLeft := false
 					for _, lGroupID := range lGroupIDsOfLabelSet[labelSet] {
-						delete(finalResult, lGroupID)
+						if _, ok := resultLHS.Results[lGroupID][timestamp]; ok {
+							onLeft = true
+							break
+						}
 					}
-					continue
-				} else { // For 'or' op, check if the vector on the right has a label set that does not exist in the vector on the left.
-					_, exists := lGroupIDsOfLabelSet[labelSet]
-					// If exists, which means we already add that label set when traversing the resultLHS
-					if exists {
+					if onLeft {
 						continue
 					}
-
-					finalResult[rGroupID] = make(map[uint32]float64)
-					for timestamp, valueRHS := range tsRHS {
-						finalResult[rGroupID][timestamp] = valueRHS
+					if _, ok := finalResult[rGroupID]; !ok {
+						finalResult[rGroupID] = make(map[uint32]float64)
 					}
+					finalResult[rGroupID][timestamp] = valueRHS
 				}
 			}
 		}
